@@ -141,6 +141,60 @@ def run(ctx):
         if not dom.relclose(float(fit2.M_), mstar, 1e-4):  # the trust-region solver stops a hair inside an active bound
             bad("with tau supplied, M is not the bounded least-squares optimum (clipped sum(r y)/sum(r r))", dict(**inp, tau_given=tau_given, bounds=[lo, hi]),
                 dict(M=float(fit2.M_), optimum=mstar))
+    # ---------------- long, noisy histories (hourly data over years): with tau supplied, M is the bounded least-squares optimum of ALL
+    # the samples handed in (closed form); a free fit agrees with an independent least-squares solve over all samples
+    for k, nlong in enumerate((25000, 60000) if ctx.quick else (12000, 25000, 60000, 130000)):
+        rf = crv["ideal"]
+        M, tau = dom.loguniform(rng, 1e2, 1e5), dom.loguniform(rng, 50.0, 5e3)
+        tt = np.linspace(tau / 200, 1.8 * tau, nlong)
+        r = np.asarray(rf(tt / tau), float)
+        y = M * r * (1 + 0.02 * rng.standard_normal(nlong))
+        fo = ForecasterOnePhase(rf, Bounds(M=(M / 50, M * 50), tau=(tau / 50, tau * 50)))
+        with warnings.catch_warnings():
+            warnings.simplefilter("ignore")
+            fo.fit(tt, y, tau=tau)
+        mstar = min(max(float(r @ y / (r @ r)), M / 50), M * 50)
+        ev += 1
+        if fo.tau_ != tau or not dom.relclose(float(fo.M_), mstar, 2e-6):
+            bad("with tau supplied, M is not the bounded least-squares optimum over all the samples handed in (long noisy history)", dict(curve="ideal", M=M, tau=tau, samples=nlong, noise="2 % multiplicative"),
+                dict(M=float(fo.M_), optimum=mstar, rel_diff=abs(float(fo.M_) / mstar - 1)))
+    # ---------------- round trip for very small resources in place (M from 1e-9 to 1e-4 in the caller's units): known finding K6
+    # (curve_fit's absolute tolerances stop at the initial guess); reported as a violation only if it fails in another way
+    k6 = [e for e in core.known_findings(ID) if e["status"] == "known" and e.get("key") == "K6-small-M-round-trip"]
+    k6_hits = 0
+    for k in range(4 if ctx.quick else 40):
+        rf = crv["analytic"]
+        M, tau = dom.loguniform(rng, 1e-9, 1e-4), dom.loguniform(rng, 1.0, 1e4)
+        tt = np.linspace(tau / 40, float(rng.uniform(0.8, 2.5)) * tau, int(rng.integers(50, 100)))
+        y = M * np.asarray(rf(tt / tau), float)
+        fo = ForecasterOnePhase(rf)
+        ev += 1
+        try:
+            with warnings.catch_warnings():
+                warnings.simplefilter("ignore")
+                fo.fit(tt, y)
+        except Exception as e:  # noqa: BLE001
+            bad("fit raises on noise-free data generated from the same curve (small resource in place)", dict(curve="analytic", M=M, tau=tau), repr(e)[:200])
+            continue
+        ok6 = dom.relclose(fo.M_, M, 2e-3) and dom.relclose(fo.tau_, tau, 2e-3)
+        inside6 = fo.bounds.M[0] <= fo.M_ <= fo.bounds.M[1] and fo.bounds.tau[0] <= fo.tau_ <= fo.bounds.tau[1]
+        if not inside6:
+            bad("fitted M / tau lie outside the configured bounds", dict(curve="analytic", M=M, tau=tau), dict(M=float(fo.M_), tau=float(fo.tau_)))
+        elif not ok6 and k6 and M < 3e-3:
+            k6_hits += 1
+        elif not ok6:
+            bad("fitting noise-free production generated from the same curve does not recover M and tau", dict(curve="analytic", M=M, tau=tau), dict(M=float(fo.M_), tau=float(fo.tau_)))
+    if k6:
+        w6 = k6[0]["witness"]
+        rfw = crv["analytic"]
+        tw = np.linspace(7.5, 450, 80)
+        fw = ForecasterOnePhase(rfw)
+        with warnings.catch_warnings():
+            warnings.simplefilter("ignore")
+            fw.fit(tw, w6["M"] * np.asarray(rfw(tw / w6["tau"]), float))
+        if not dom.relclose(fw.M_, w6["M"], 1e-2):
+            ctx.known_printed.append(k6[0]["line"])
+            ctx.notes.append(f"known finding K6 reproduced on its witness (fitted M {fw.M_ / w6['M']:.3g} x, tau {fw.tau_ / w6['tau']:.3g} x the generating values); {k6_hits} sampled fits showed it")
     # ---------------- the lookup object the library itself hands to the forecaster (recovery_factor_interpolator; tie 1:
     # C05_interpolator.v): stored value at every stored time, 0 before the first, the last stored recovery after the last,
     # never outside the range of the stored recoveries - for both reservoirs and both recovery modes
